@@ -402,3 +402,33 @@ func vh_C06_L8_iforward_tsn_keeps_ordered_and_unordered_apart() {
 	vh_C07_L2_iforward_tsn_ordered_and_unordered_entries()
 }
 func vh_C06_L8_failed_write_gives_back_its_number() { vh_C18_L2_block_write_gate() }
+
+// C06.L9: never a fragment or a splice. A message of 3..4 fragments (DATA or I-DATA, ordered
+// or unordered, symbolic TSN / SSN / MID bases) of which any single fragment is still
+// missing (first, a middle one, last) is not readable and a read returns nothing; when
+// the missing fragment arrives the message is delivered whole.
+func vh_C06_L9_incomplete_message_is_never_delivered() {
+	iData := vPick(2) == 1
+	unordered := vPick(2) == 1
+	r := newReassemblyQueue(3, 0)
+	ssn, mid, base := nondetU16(), nondetU32(), nondetU32()
+	r.nextSSN, r.nextMID = ssn, mid
+	nf := 3 + vPick(2)
+	m := vMakeMsg(3, iData, unordered, ssn, mid, base, nf, PayloadTypeWebRTCString)
+	missing := vPick(nf)
+	for i, c := range m.chunks {
+		if i != missing {
+			r.push(c)
+		}
+	}
+	vassert(!r.isReadable(), "a message with a fragment missing is not readable")
+	buf := make([]byte, 8)
+	n, _, err := r.read(buf)
+	vassert(err != nil && n == 0, "and a read returns nothing (never a truncated message)")
+	vassert(r.getNumBytes() == nf-1, "the fragments received are kept")
+	r.push(m.chunks[missing])
+	vassert(r.isReadable(), "the message is readable once complete")
+	n, ppi, err := r.read(buf)
+	vassert(err == nil && n == nf && vBytesEq(buf[:n], m.bytes) && ppi == PayloadTypeWebRTCString, "and is delivered whole")
+	vcover("end")
+}
